@@ -177,7 +177,7 @@ func (cp *copier) tgt(t Target) Target {
 		}
 		return MapT{M: n}
 	case SliceT:
-		return SliceT{Arr: cp.obj(x.Arr), Off: x.Off, Len: x.Len, Cap: x.Cap}
+		return SliceT{Arr: cp.obj(x.Arr), Off: x.Off, Len: x.Len, Cap: x.Cap, Pres: x.Pres}
 	case IfaceT:
 		return IfaceT{Typ: x.Typ, V: cp.val(x.V)}
 	}
